@@ -94,6 +94,22 @@ def run(tier: str) -> int:
         progs.append((name, srcs, True))
     for name, src in enum_programs(tier):
         progs.append((name, src, False))
+    from .. import tables
+
+    en = tables.enums()
+    slot_names = sorted(tables.all_props("_SlotTypeCommon"))
+    lines = [HDR, "f = ArcFurnace(d0)"]
+    for i, nm in enumerate(slot_names):
+        lines.append(f"d{i % 6}.Setting = f.slot0.{nm}")
+        lines.append(f"d{i % 6}.Mode = ArcFurnaces.slot1.{nm}.Sum")
+    progs.append(("slots:common", "\n".join(lines) + "\n", False))
+    lts = sorted(en["LogicType"])
+    for k in range(0, len(lts), 40):
+        lines = [HDR, "g = Device(d1)"]
+        for i, nm in enumerate(lts[k:k + 40]):
+            if nm.isidentifier() and not nm.endswith("_"):
+                lines.append(f"d{i % 6}.Setting = g.{nm}")
+        progs.append((f"logictypes:{k}", "\n".join(lines) + "\n", False))
     vecs = [{}, {"inline_functions": False}, {"remove_labels": True}, {"inline_functions": False, "use_push_pop_functions": True, "remove_labels": True}]
     items = [dict(name=n_, sources=s, lenient=l, vectors=vecs if tier == "thorough" or i % 4 == 0 else vecs[:2]) for i, (n_, s, l) in enumerate(progs)]
     results = harness.pmap(task, items)
